@@ -356,6 +356,48 @@ func runRace(c *Race) (*verdict, bool) {
 	if !survivor.a.p.Ping() {
 		return failf(b, "takeover/survivor-dead", "the connection that holds the id (%s) does not answer PINGREQ (eof=%v)", survivor.a.name, survivor.a.p.EOF), true
 	}
+	// with a persistent session all along (incumbent and every contender without
+	// clean session) the subscription and the queue survive every hand-over:
+	// each streamed QoS 1 message - acknowledged to its publisher - has reached
+	// one of the connections or reaches the survivor now
+	persistent := inc != nil && !c.IncClean && c.Incumbent != "stalled"
+	for _, ct := range c.Contenders {
+		persistent = persistent && !ct.Clean
+	}
+	if persistent && c.Stream > 0 {
+		persistentStreams++
+		have := func() map[string]bool {
+			m := map[string]bool{}
+			for _, a := range all {
+				if a.p == nil {
+					continue
+				}
+				for _, pub := range a.p.Publishes(0) {
+					m[string(pub.Message.Payload)] = true
+				}
+			}
+			return m
+		}
+		deadline := time.Now().Add(ev.Ceiling())
+		missing := ""
+		for {
+			m := have()
+			missing = ""
+			for i := 0; i < c.Stream; i++ {
+				if tag := fmt.Sprintf("s-%d", i); !m[tag] {
+					missing = tag
+					break
+				}
+			}
+			if missing == "" || time.Now().After(deadline) || survivor.a.p.EOF {
+				break
+			}
+			survivor.a.p.PumpWait(2 * time.Millisecond)
+		}
+		if missing != "" {
+			return failf(b, "takeover/stream-message-lost", "QoS 1 message %s was acknowledged to its publisher during the takeover, the session was persistent throughout (no clean connect), yet neither a displaced connection nor the survivor (%s) ever received it", missing, survivor.a.name), true
+		}
+	}
 	// a bystander can still connect and the id is usable (backend not wedged)
 	by, _ := b.Dial("bystander")
 	if _, err := by.ConnectID("bystander", true); err != nil {
@@ -370,6 +412,9 @@ func runRace(c *Race) (*verdict, bool) {
 	}
 	return nil, true
 }
+
+// persistentStreams counts race cases in which the stream's delivery was judged.
+var persistentStreams int
 
 func runHandover(c *Handover) *verdict {
 	b := bk.New(func(m *broker.MemoryBackend, e *broker.Engine) { m.ClientInflightMessages = c.Unacked })
@@ -585,7 +630,7 @@ func genHandover(rt *rapid.T) *Handover {
 func TestC13(t *testing.T) {
 	run := ev.Start("C13", "exploration")
 	run.Rule("(a) races: 1-8 simultaneous connection attempts with one client id (clean/unclean, with/without will, start skew 0-300 us, per-operation schedule jitter drawn from the case, GOMAXPROCS in {1,2,4,16}) against an incumbent that is absent / idle / holding unacknowledged deliveries / blocked in a send on a stalled carrier / being dropped by its peer at the same instant / mid inbound QoS 2, optionally with a publisher streaming to the id. Oracle over the recorded backend+connection history, valid for every schedule: the [Setup return, Terminate return) intervals of the connections holding the id are disjoint, a displaced holder's will is published once and before the successor's Setup returns, CONNACK follows Setup, every holder but the last is terminated exactly once and its connection closed, exactly one connection answers PINGREQ, a bystander can still connect, no library goroutine is left. (b) deterministic hand-over: incumbent with u unacknowledged (optionally PUBREC sent) + q queued messages is displaced by an unclean (clean) newcomer which must receive exactly the u retransmissions (DUP / PUBREL) then the q queued messages in order, each once, and keep the subscription (nothing and no session for clean). non-trivial = >= 3 contenders or traffic overlapping the takeover, or a hand-over with queued messages; distinct by case")
-	run.Assume("schedules are sampled by the Go scheduler under perturbation, not enumerated", "messages published while the displaced connection is going down are not judged for delivery (documented backend behaviour)")
+	run.Assume("schedules are sampled by the Go scheduler under perturbation, not enumerated", "delivery of the bystander's stream is judged only when the session is persistent throughout (a clean connect discards the queue) and the incumbent is not stalled in a send")
 	defer run.Finish(t)
 	shard, _ := ev.Shard()
 	fixedRaces := []*Race{
@@ -593,6 +638,8 @@ func TestC13(t *testing.T) {
 		{Procs: 16, Incumbent: "none", Contenders: []Contender{{Will: true}, {Will: true}, {Will: true}, {Will: true}, {Will: true}, {Will: true}}},
 		{Procs: 2, Incumbent: "stalled", Contenders: []Contender{{Clean: true}, {}}, Stream: 10},
 		{Procs: 1, Incumbent: "unacked", Contenders: []Contender{{}, {Clean: true}, {}, {Will: true}}, Jitter: 77},
+		{Procs: 4, Incumbent: "idle", Contenders: []Contender{{}, {Will: true}}, Stream: 12, Jitter: 5},
+		{Procs: 2, Incumbent: "dropping", Contenders: []Contender{{}}, Stream: 8},
 	}
 	execRace := func(c *Race) *verdict {
 		run.Eval(1)
@@ -637,6 +684,7 @@ func TestC13(t *testing.T) {
 			rt.Fatalf("%s: %s", v.sig, v.msg)
 		}
 	})
+	run.Set("races_with_stream_delivery_judged", persistentStreams)
 }
 
 func TestReplay(t *testing.T) {
